@@ -36,7 +36,7 @@ m = {
         "source_commits": hooks_commits,
         "add_only": True,
     },
-    "engines": [{"name": e, "path": e + "/", "serves_properties": [p for p, r in REGISTRY.items() if r["engine"] == e],
+    "engines": [{"name": e, "path": e + "/", "serves_properties": [p for p, r in REGISTRY.items() if e in (r["engine"] if isinstance(r["engine"], list) else [r["engine"]])],
                  "kind_free_text": "deterministic simulation engine (Go test binary driven by ./check; rapid is the sole choice source; plan+tape replay files)"} for e in ENGINES],
     "checks": [],
     "notes": "Technique family: deterministic simulation with fault injection. See DESIGN.md. Exit 2 of a check = build/watchdog/harness trouble, never a violation.",
@@ -51,7 +51,7 @@ for p in ALL:
             "thorough_cmd": "./check %s --tier thorough" % p,
             "evidence_file": "evidence/%s.json" % p,
             "replay_cmd_template": "./check %s --replay {path}" % p,
-            "engine": r["engine"],
+            "engine": "+".join(r["engine"]) if isinstance(r["engine"], list) else r["engine"],
             "level_claimed": {"category": r["level"], "text": r["level_text"], "design_ref": r["design_ref"]},
             "level_note": r["level_note"],
             "technique": r["technique"],
